@@ -366,6 +366,14 @@ theorem accepted_of_sent_m3 {C : Crypto} {t : Transport} {cr : Creds} {cl : Clie
           have hv2 : (verify1 C cr cl pub enc).2 = .ok (sh, m3) := by rw [hv]
           exact ⟨pub, enc, sh, ⟨tlv, hpd, hpub, henc⟩, (verify1_ok hv2).1⟩
 
+theorem no_m3_unless_accepted {C : Crypto} {t : Transport} {cr : Creds} {cl : Client} {r : Reply}
+    (h : ¬ Accepted C t cr cl r) :
+    ∀ ev ∈ (verifyCredentials C t cr cl r).1, ev.isSendM3 = false := by
+  intro ev hev
+  cases hs : ev.isSendM3 with
+  | false => rfl
+  | true => exact absurd (accepted_of_sent_m3 hev hs) h
+
 /-- (output_key, input_key) a transport derives from the X25519 shared secret (`verify2`) -/
 def transportKeys (C : Crypto) (t : Transport) (shared : Bytes) : Bytes × Bytes :=
   (C.hkdf (kdfParams t).1 (kdfParams t).2.1 shared, C.hkdf (kdfParams t).1 (kdfParams t).2.2 shared)
